@@ -1,0 +1,97 @@
+//go:build verif
+
+// Contracts for the tuple-field validators (property C18), checked by /verif/govc.
+// This file contains comments only; it is compiled only with -tags verif.
+package validation
+
+// Notation: lang(F) is the regular language { s | F(s) } computed from the real body of F (its constant patterns),
+// re("...") is the language of an anchored RE2 pattern, cat/inter/union/comp are language operations and
+// rlen(a,b) is "any a..b characters". "Whitespace" is the rule dialect's own \s = [\t\n\f\r ].
+
+//@ func ValidateType
+//@   props C18
+//@   inline
+//@   ensures no_ws:       result ==> inre(typeString, re("^[^\\s]*$"))
+//@   ensures no_special:  result ==> inre(typeString, re("^[^:#@*]*$"))
+//@   ensures max_254:     result ==> inre(typeString, rlen(1, 254))
+//@   ensures accepts_word: inre(typeString, re("^[a-zA-Z0-9_-]{1,20}$")) ==> result
+
+//@ func ValidateRelation
+//@   props C18
+//@   inline
+//@   ensures no_ws:      result ==> inre(relation, re("^[^\\s]*$"))
+//@   ensures no_special: result ==> inre(relation, re("^[^:#@*]*$"))
+//@   ensures max_50:     result ==> inre(relation, rlen(1, 50))
+//@   ensures accepts_word: inre(relation, re("^[a-zA-Z0-9_-]{1,20}$")) ==> result
+
+//@ func ValidateRelationshipCondition
+//@   props C18
+//@   inline
+//@   ensures max_50:     result ==> inre(condition, rlen(1, 50))
+//@   ensures accepts_word: inre(condition, re("^[a-zA-Z0-9_-]{1,20}$")) ==> result
+//@   ensures no_ws:      result ==> inre(condition, re("^[^\\s]*$"))
+
+//@ func ValidateObjectID
+//@   props C18
+//@   inline
+//@   ensures no_ws:        result ==> inre(relation, re("^[^\\s]*$"))
+//@   ensures no_separator: result ==> inre(relation, re("^[^:#]+$"))
+//@   ensures not_wildcard: result ==> relation != "*"
+
+//@ func ValidateObject
+//@   props C18
+//@   inline
+//@   ensures one_colon: result ==> inre(object, re("^[^:]*:[^:]*$"))
+//@   ensures no_hash:   result ==> inre(object, re("^[^#]*$"))
+//@   ensures splits:    result ==> inre(object, cat(lang(ValidateType), ":", lang(ValidateObjectID)))
+//@   ensures len_2_256: result ==> inre(object, rlen(2, 256))
+//@   ensures accepts:   inre(object, re("^[a-z]{1,10}:[a-z0-9]{1,10}$")) ==> result
+
+//@ func ValidateUserObject
+//@   props C18
+//@   inline
+//@   ensures one_colon: result ==> inre(userObject, re("^[^:]*:[^:]*$"))
+//@   ensures splits:    result ==> inre(userObject, cat(lang(ValidateType), ":", lang(ValidateObjectID)))
+//@   ensures len_2_256: result ==> inre(userObject, rlen(2, 256))
+//@   ensures same_as_object: result == ValidateObject(userObject)
+
+//@ func ValidateUserSet
+//@   props C18
+//@   inline
+//@   ensures one_colon:  result ==> inre(userSet, re("^[^:]*:[^:]*$"))
+//@   ensures one_hash:   result ==> inre(userSet, re("^[^#]*#[^#]*$"))
+//@   ensures hash_after: result ==> inre(userSet, re("^[^#]*:[^:]*#[^:]*$"))
+//@   ensures splits:     result ==> inre(userSet, cat(lang(ValidateType), ":", lang(ValidateObjectID), "#", lang(ValidateRelation)))
+
+//@ func ValidateUserWildcard
+//@   props C18
+//@   inline
+//@   ensures shape: result ==> inre(userWildcard, cat(lang(ValidateType), ":*"))
+//@   ensures all:   inre(userWildcard, cat(lang(ValidateType), ":*")) ==> result
+
+//@ func ValidateUser
+//@   props C18
+//@   ensures is_union:          result == (ValidateUserSet(user) || ValidateObject(user) || ValidateUserWildcard(user))
+//@   -- pairwise disjointness, each through a separating language (the conjunction implies "not both"):
+//@   ensures userset_has_hash:   ValidateUserSet(user) ==> !inre(user, re("^[^#]*$"))
+//@   ensures object_no_hash:     ValidateObject(user) ==> inre(user, re("^[^#]*$"))
+//@   ensures wildcard_no_hash:   ValidateUserWildcard(user) ==> inre(user, re("^[^#]*$"))
+//@   ensures wildcard_star:      ValidateUserWildcard(user) ==> inre(user, re("^[^:]*:\*.*$"))
+//@   ensures object_no_star:     ValidateObject(user) ==> !inre(user, re("^[^:]*:\*.*$"))
+//@   ensures userset_xor_object:   !(ValidateUserSet(user) && ValidateObject(user))
+//@   ensures userset_xor_wildcard: !(ValidateUserSet(user) && ValidateUserWildcard(user))
+//@   ensures object_xor_wildcard:  !(ValidateObject(user) && ValidateUserWildcard(user))
+
+// Exact limits, as ground instances of the real functions (evaluated by the solver on the code's own patterns).
+//@ lemma type_254_accepted {C18}:      ValidateType(repeat("a", 254))
+//@ lemma type_255_rejected {C18}:      !ValidateType(repeat("a", 255))
+//@ lemma type_empty_rejected {C18}:    !ValidateType("")
+//@ lemma relation_50_accepted {C18}:   ValidateRelation(repeat("r", 50))
+//@ lemma relation_51_rejected {C18}:   !ValidateRelation(repeat("r", 51))
+//@ lemma condition_50_accepted {C18}:  ValidateRelationshipCondition(repeat("c", 50))
+//@ lemma condition_51_rejected {C18}:  !ValidateRelationshipCondition(repeat("c", 51))
+//@ lemma object_256_accepted {C18}:    ValidateObject(repeat("t", 100) + ":" + repeat("i", 155))
+//@ lemma object_257_rejected {C18}:    !ValidateObject(repeat("t", 100) + ":" + repeat("i", 156))
+//@ lemma object_min_accepted {C18}:    ValidateObject("t:i")
+//@ lemma object_2_rejected {C18}:      !ValidateObject("t:") && !ValidateObject(":i")
+//@ lemma user_kinds {C18}:             ValidateUser("t:i") && ValidateUser("t:i#r") && ValidateUser("t:*") && !ValidateUser("t") && !ValidateUser("t:i#r#r")
